@@ -42,18 +42,23 @@ fn parse_csv_row(row: &str) -> Vec<String> {
     let mut rdr = csv_core::Reader::new();
     let mut bytes = row.as_bytes();
     let mut output = [0; 4096];
+    let mut field = vec![];
     loop {
         let (result, nin, nout) = rdr.read_field(bytes, &mut output);
+        field.extend_from_slice(&output[..nout]);
+        bytes = &bytes[nin..];
         let end = match result {
+            // The cell is longer than the buffer; the rest of it follows.
+            ReadFieldResult::OutputFull => continue,
             ReadFieldResult::InputEmpty => true,
-            ReadFieldResult::Field { .. } => false,
-            _ => unreachable!(),
+            ReadFieldResult::Field { record_end } => record_end,
+            // An empty feature string.
+            ReadFieldResult::End => true,
         };
-        features.push(std::str::from_utf8(&output[..nout]).unwrap().to_string());
+        features.push(String::from_utf8(std::mem::take(&mut field)).unwrap());
         if end {
             break;
         }
-        bytes = &bytes[nin..];
     }
     features
 }
